@@ -395,7 +395,7 @@ pub fn c17_run(max_n: usize) -> WorldOutcome {
             st = g;
             if to.timed_out() {
                 waited += 1;
-                if waited >= 6 {
+                if waited >= 36 {
                     hung = true;
                     break;
                 }
@@ -420,8 +420,8 @@ pub fn c17_run(max_n: usize) -> WorldOutcome {
         sched.cv.notify_all();
     }
     if hung {
-        // a caller thread neither parked nor finished for 30 s of wall time: the harness cannot continue
-        panic!("sampworld: a caller thread did not reach a scheduling point within 30 s");
+        // a caller thread neither parked nor finished for 3 minutes of wall time: the harness cannot continue
+        panic!("sampworld: a caller thread did not reach a scheduling point within 3 minutes");
     }
     for h in handles {
         let _ = h.join();
